@@ -26,3 +26,8 @@ def assume(expr):
 
 def requires(expr):
     pass
+
+
+def set_probe(x):
+    from pyvc import ntrace
+    ntrace.REG['probe'] = x
